@@ -43,7 +43,7 @@ def gen_chain(rng, i, tier):
         new["gamma"] = "1"
     if kind == "periodic":
         # discounted runs too: their measure depends on the absolute iteration number, which a resumed process must carry over
-        new.update(gamma=rng.choice(["3/4", "9/10"]) if (i // 7) % 2 == 0 else "1", period=rng.randint(2, 3), clear=0)
+        new.update(gamma=rng.choice(["3/4", "9/10"]) if (i // 7) % 2 == 0 else "1", period=rng.randint(2, 3) if i % 2 else rng.choice([3, 4]), clear=0)
     if kind == "pi":
         new.update(budget=rng.choice([2, 5]), reset=rng.randint(0, 1), eps="1/64")
     if kind == "semi":
@@ -87,6 +87,11 @@ def run_chain(ch, base):
             cuts = set(r2.randint(1, nstar - 1) for _ in range(len(ks) - 1))
             if ch["kind"] == "periodic" and new["period"] < nstar:
                 cuts.add(new["period"])
+            # … and shortly before the iteration at which the uninterrupted run reports convergence: the resumed process must apply the
+            # stopping test from its very first sweep on (periodic: with the ring buffer wrapped, at every residue of k mod (period+1))
+            for back in ((1, 2, 3) if ch["kind"] == "periodic" else (1,)):
+                if nstar - back >= 1:
+                    cuts.add(nstar - back)
             cuts = sorted(cuts)
             ks = [b - a for a, b in zip([0] + cuts, cuts)] + [80]
             ch["ks"] = ks
